@@ -1,6 +1,7 @@
 (* C03 property theorems ONLY (each closed by an already proved lemma) + assumptions. *)
 From Coq Require Import List ZArith Reals Lra Lia.
-From RV Require Import Common.Num Common.RealNum C03.Model C03.Proofs.
+From Coquelicot Require Import Coquelicot.
+From RV Require Import Common.Num Common.RealNum C03.Model C03.Proofs C03.Flow C03.Derivs C03.Series.
 Import ListNotations.
 Open Scope R_scope.
 
@@ -92,6 +93,82 @@ Theorem C03_bisect_halves : forall (Xmin Xmax : R) (b : bool),
   Xmax' - Xmin' = (Xmax - Xmin) / 2.
 Proof. exact bisect_halves. Qed.
 Print Assumptions C03_bisect_halves.
+
+(* ------------------------------------------------------------------ round 2 *)
+
+(* Flow (group) law, relational form.  exact_step M dt p p' := p' is the model's f-g update of p for SOME r0, beta, X,
+   G0..G3 with kepler_hyp p M dt r0 beta X G0..G3 (Stumpff/Stiefel identities + universal Kepler equation for dt).
+   Two exact steps compose to an exact step of the summed time. *)
+Theorem C03_kepler_flow_group : forall (M dt1 dt2 : R) (p p1 p2 : P6),
+  exact_step M dt1 p p1 -> exact_step M dt2 p1 p2 -> exact_step M (dt1 + dt2) p p2.
+Proof. exact kepler_flow_group. Qed.
+Print Assumptions C03_kepler_flow_group.
+
+(* explicit form: same conic (r1 = new radius, same beta), universal anomalies add, the G's combine by the
+   addition theorems Gadd, and the composite state is the single f-g update with those G's *)
+Theorem C03_kepler_flow_group_explicit :
+  forall (p : P6) (M dt1 dt2 r0 beta X1 X2 A0 A1 A2 A3 r1 beta1 B0 B1 B2 B3 : R),
+  kepler_hyp p M dt1 r0 beta X1 A0 A1 A2 A3 ->
+  let p1 := fg_update RNum M dt1 (1 / r0) (1 / new_radius p M r0 beta A1 A2) A1 A2 A3 p in
+  kepler_hyp p1 M dt2 r1 beta1 X2 B0 B1 B2 B3 ->
+  let p2 := fg_update RNum M dt2 (1 / r1) (1 / new_radius p1 M r1 beta1 B1 B2) B1 B2 B3 p1 in
+  let '(C0, C1, C2, C3) := Gadd beta (A0, A1, A2, A3) (B0, B1, B2, B3) in
+  r1 = new_radius p M r0 beta A1 A2 /\ beta1 = beta /\
+  kepler_hyp p M (dt1 + dt2) r0 beta (X1 + X2) C0 C1 C2 C3 /\
+  p2 = fg_update RNum M (dt1 + dt2) (1 / r0) (1 / new_radius p M r0 beta C1 C2) C1 C2 C3 p.
+Proof. exact flow_group_explicit. Qed.
+Print Assumptions C03_kepler_flow_group_explicit.
+
+Theorem C03_zero_step_is_identity : forall M p, 0 < radius p -> exact_step M 0 p p.
+Proof. exact exact_step_zero. Qed.
+Print Assumptions C03_zero_step_is_identity.
+
+(* The closed-form Stiefel functions as functions of X (Gdir: cos/sin for beta>0, cosh/sinh for beta<0, monomials
+   for beta=0): they satisfy the hypotheses of the f-g theorem, are closed under the addition theorems (so the
+   composite of two steps uses the SAME functions at X1+X2), and G1' = G0, G2' = G1, G3' = G2 (Coquelicot is_derive). *)
+Theorem C03_Gdir_identities : forall beta X,
+  let '(G0, G1, G2, G3) := Gdir beta X in
+  G0 = 1 - beta * G2 /\ G1 = X - beta * G3 /\ G1 * G1 = G2 * (1 + G0).
+Proof. exact Gdir_identities. Qed.
+Print Assumptions C03_Gdir_identities.
+
+Theorem C03_Gdir_addition : forall beta X1 X2, Gdir beta (X1 + X2) = Gadd beta (Gdir beta X1) (Gdir beta X2).
+Proof. exact Gdir_addition. Qed.
+Print Assumptions C03_Gdir_addition.
+
+Theorem C03_Gdir_derivatives : forall beta X,
+  is_derive (G1d beta) X (G0d beta X) /\ is_derive (G2d beta) X (G1d beta X) /\ is_derive (G3d beta) X (G2d beta X).
+Proof. exact Gdir_derivatives. Qed.
+Print Assumptions C03_Gdir_derivatives.
+
+(* Sundman / time equation: the universal Kepler function has derivative r(X) = r0 + eta0 G1 + zeta0 G2, i.e.
+   dt = r dX, for every beta (elliptic, hyperbolic, parabolic) *)
+Theorem C03_sundman : forall beta r0 eta0 zeta0 X,
+  is_derive (fun X => r0 * X + eta0 * G2d beta X + zeta0 * G3d beta X) X
+            (r0 + eta0 * G1d beta X + zeta0 * G2d beta X).
+Proof. exact sundman. Qed.
+Print Assumptions C03_sundman.
+
+(* Truncation error of stumpff_cs3's series (model term series3 = the Horner coefficients of the code) against the
+   closed-form Stumpff functions, 0 < z <= 1: at most the first omitted term, with a definite sign. *)
+Theorem C03_series3_truncation_pos : forall z, 0 < z <= 1 ->
+  let '(t0, t1, t2, t3) := series3 RNum z in
+  let '(c0, c1, c2, c3) := Ccf z in
+  - (z ^ 7 / 87178291200) <= c0 - t0 <= 0 /\
+  - (z ^ 7 / 1307674368000) <= c1 - t1 <= 0 /\
+  0 <= c2 - t2 <= z ^ 6 / 87178291200 /\
+  0 <= c3 - t3 <= z ^ 6 / 1307674368000.
+Proof. exact series3_trunc_pos. Qed.
+Print Assumptions C03_series3_truncation_pos.
+
+(* on the range the code feeds to the series after quartering, 0 < z <= 0.1 *)
+Theorem C03_series3_truncation_tenth : forall z, 0 < z <= 1 / 10 ->
+  let '(t0, t1, t2, t3) := series3 RNum z in
+  let '(c0, c1, c2, c3) := Ccf z in
+  Rabs (c0 - t0) <= 12 / 10 ^ 19 /\ Rabs (c1 - t1) <= 8 / 10 ^ 20 /\
+  Rabs (c2 - t2) <= 12 / 10 ^ 18 /\ Rabs (c3 - t3) <= 8 / 10 ^ 19.
+Proof. exact series3_trunc_pos_tenth. Qed.
+Print Assumptions C03_series3_truncation_tenth.
 
 (* Non-vacuity: an eccentric elliptic state (e = 3/5, beta = 1) and a parabolic one (beta = 0) with
    rational G's meet every hypothesis of C03_fg_step_on_exact_orbit; C03_fg_step_closed_form and
